@@ -121,14 +121,21 @@ PROPS.update({
                        ["the MAC of the nonce managers is a parameter of the nonce theorems; harness H3 supplies the real HMAC of the decoded timestamp as an oracle entry per operation",
                         "MESSAGE-INTEGRITY verification itself is pion/stun's (exercised for real, modelled as the fact macOK)"]),
                 harnesses=["H2", "H3"]),
-    "C04": h2prop(["TurnModel.Props.C04", "TurnModel.Props.C04NI"], ["m:*", "pdata", "pconn", "cclose", "state"], None, ["response-wrong-source"]),
+    "C04": dict(h2prop(["TurnModel.Props.C04", "TurnModel.Props.C04NI"], ["m:*", "pdata", "pconn", "cclose", "state"], None,
+                       ["response-wrong-source", "shared-relay-port-udp4", "shared-relay-port-tcp4"],
+                       ["the model's relayBusy (a relayed address held by a live allocation cannot be handed out again) is the bundled generators' duty: H8 opens real loopback "
+                        "sockets through them; for TCP relay listeners it does not hold (finding F18)"]),
+                harnesses=["H2", "H8"]),
     "C05": h2prop(["TurnModel.Props.C05"], ["m:send", "m:cdata", "pdata"], ["topeer", "dind", "cdat"], ["chandata-padding"]),
-    "C06": h2prop(["TurnModel.Props.C06"], ["m:alloc", "m:refresh", "adv", "state", "m:send", "pdata"], ["resp", "topeer", "dind", "cdat"], []),
+    "C06": h2prop(["TurnModel.Props.C06"], ["m:alloc", "m:refresh", "adv", "state", "m:send", "pdata"], ["resp", "topeer", "dind", "cdat", "ev"], []),
     "C07": h2prop(["TurnModel.Props.C07", "TurnModel.Props.C07Trace"], ["m:perm", "m:bind", "adv", "m:send", "m:cdata", "pdata", "state"],
                   ["resp", "topeer", "dind", "cdat"], []),
     "C08": h2prop(["TurnModel.Props.C08"], ["m:bind", "m:cdata", "pdata", "state"], ["resp", "cdat", "topeer"],
                   ["chandata-invalid-number-emitted"]),
-    "C19": h2prop(["TurnModel.Props.C19"], ["m:*"], ["resp"], ["response-wrong-source"]),
+    "C19": dict(h2prop(["TurnModel.Props.C19"], ["m:*"], ["resp"], ["response-wrong-source", "shared-relay-port-udp4", "shared-relay-port-tcp4"],
+                       ["allocate_truthful's relay uniqueness rests on the generator refusing a port in use: H8 checks it on real loopback sockets; for TCP relay listeners "
+                        "it does not hold (finding F18)"]),
+                harnesses=["H2", "H8"]),
     "C15": h2prop(["TurnModel.Props.C15"], ["*"], ["ev", "net", "dclosed", "cclosed"],
                   ["allocation-count-mismatch", "sockets-left-after-close", "server-close-leaves-control-connections", "even-port-probe-left-open"],
                   ["PARTIAL: goroutines and timers are ghost state in the model (one timer per entity, one reader goroutine per allocation); "
